@@ -179,6 +179,11 @@ fn real_main() {
                     if k % 3 == 0 {
                         v.push(cases::names_case(i, &synth, (k as u32 / 3) % 2));
                     }
+                    if k % 3 == 1 {
+                        // the other switches are none of the name section's business
+                        let noprod = wv::run::Cfg { producers: false, ..Default::default() };
+                        v.push(cases::names_case(i, &noprod, (k as u32 / 3) % 2));
+                    }
                     v
                 })
                 .collect();
